@@ -28,10 +28,11 @@ type helperTab struct {
 	sites   map[*ssa.Function][]ssa.CallInstruction // static call sites per (origin) callee
 	anchors map[*ssa.Function]bool
 	ctx     map[*ssa.Function]ssa.CallInstruction // call through which a helper was last entered
+	pinned  map[*ssa.Function]bool                // ctx fixed by a vcall: not overwritten while resolving
 	memo    map[*ssa.Function]bool
 }
 
-var ht = &helperTab{sites: map[*ssa.Function][]ssa.CallInstruction{}, anchors: map[*ssa.Function]bool{}, ctx: map[*ssa.Function]ssa.CallInstruction{}, memo: map[*ssa.Function]bool{}}
+var ht = &helperTab{sites: map[*ssa.Function][]ssa.CallInstruction{}, anchors: map[*ssa.Function]bool{}, ctx: map[*ssa.Function]ssa.CallInstruction{}, pinned: map[*ssa.Function]bool{}, memo: map[*ssa.Function]bool{}}
 
 var gp *Prog
 
@@ -141,6 +142,9 @@ func isHelper(g *ssa.Function) bool {
 // helperCallSite: the call site relative to which parameters of helper g are resolved.
 func helperCallSite(g *ssa.Function) ssa.CallInstruction {
 	g = originFn(g)
+	if ht.pinned[g] {
+		return ht.ctx[g]
+	}
 	sites := ht.sites[g]
 	if len(sites) == 1 {
 		return sites[0]
@@ -192,7 +196,9 @@ func throughHelper(v ssa.Value) (ssa.Value, bool) {
 			return nil, false
 		}
 		if ret := singleReturn(g); ret != nil && len(ret.Results) == 1 {
-			ht.ctx[originFn(g)] = x
+			if !ht.pinned[originFn(g)] {
+				ht.ctx[originFn(g)] = x
+			}
 			return ret.Results[0], true
 		}
 	case *ssa.Extract:
@@ -205,7 +211,9 @@ func throughHelper(v ssa.Value) (ssa.Value, bool) {
 			return nil, false
 		}
 		if ret := singleReturn(g); ret != nil && x.Index < len(ret.Results) {
-			ht.ctx[originFn(g)] = c
+			if !ht.pinned[originFn(g)] {
+				ht.ctx[originFn(g)] = c
+			}
 			return ret.Results[x.Index], true
 		}
 	}
@@ -254,5 +262,81 @@ func plainWithAnons(f *ssa.Function) []*ssa.Function {
 	for _, a := range f.AnonFuncs {
 		out = append(out, plainWithAnons(a)...)
 	}
+	return out
+}
+
+// vcall is a call of a target function as seen from a root function: either a call in the root
+// (or its closures), or a call inside a transparent helper together with the chain of call sites
+// through which the helper is entered from the root. run executes fn with that chain installed as
+// the resolution context, so that strip maps the helper's parameters to THIS chain's arguments
+// (a helper with several call sites is analysed once per call site).
+type vcall struct {
+	call  ssa.CallInstruction
+	chain []ssa.CallInstruction // outermost first; empty for a direct call
+}
+
+func (v vcall) run(fn func()) {
+	saved := map[*ssa.Function]ssa.CallInstruction{}
+	for _, s := range v.chain {
+		if g := rawStaticCallee(s); g != nil {
+			g = originFn(g)
+			saved[g] = ht.ctx[g]
+			ht.ctx[g] = s
+			ht.pinned[g] = true
+		}
+	}
+	defer func() {
+		for g, old := range saved {
+			delete(ht.pinned, g)
+			if old == nil {
+				delete(ht.ctx, g)
+			} else {
+				ht.ctx[g] = old
+			}
+		}
+	}()
+	fn()
+}
+
+// where returns the block that stands for the call's position in the root: the outermost call
+// site of the chain, or the call's own block.
+func (v vcall) where() *ssa.BasicBlock {
+	if len(v.chain) > 0 {
+		return v.chain[0].Block()
+	}
+	return v.call.Block()
+}
+
+// virtualCallsTo enumerates the calls of target reachable from root through transparent helpers.
+func virtualCallsTo(root *ssa.Function, target *ssa.Function) []vcall {
+	var out []vcall
+	var walk func(f *ssa.Function, chain []ssa.CallInstruction, depth int)
+	walk = func(f *ssa.Function, chain []ssa.CallInstruction, depth int) {
+		if depth > 4 {
+			return
+		}
+		for _, g := range plainWithAnons(f) {
+			for _, b := range g.Blocks {
+				for _, in := range b.Instrs {
+					c, ok := in.(ssa.CallInstruction)
+					if !ok {
+						continue
+					}
+					callee := rawStaticCallee(c)
+					if callee == nil {
+						continue
+					}
+					if sameFn(callee, target) {
+						out = append(out, vcall{c, append([]ssa.CallInstruction{}, chain...)})
+						continue
+					}
+					if isHelper(callee) {
+						walk(originFn(callee), append(append([]ssa.CallInstruction{}, chain...), c), depth+1)
+					}
+				}
+			}
+		}
+	}
+	walk(root, nil, 0)
 	return out
 }
